@@ -22,7 +22,9 @@ META = {
     "assumptions": ["every $ref value is a string and every regex compiles (the property's own preconditions)", "CrossHair's library models"],
 }
 
-REFS = ["#", "#/definitions/a", "#/definitions/nope", "#/", "#/a~1b", "#/items/0", "nope.json", "#/properties/a"]
+REFS = ["#", "#/definitions/a", "#/definitions/nope", "#/", "#/a~1b", "#/items/0", "nope.json", "#/properties/a", "#/definitions",
+        "#/definitions/a/type"]
+NON_SCHEMA_REF = "#/definitions/a/type"      # designates the string "integer": known finding F10
 IDS = ["", "http://x.test/a.json", "b.json", "#frag", "http://x.test/dir/", "urn:x"]
 REGEXES = tp.REGEXES + ["a{2}", "(a|b)*c"]
 FORMATS = ["ipv4", "email", "date", "regex", "unknown-format", "", "uri", "color", "time", "host-name", "ip-address"]
@@ -116,11 +118,13 @@ EPS_CORE = ["is_valid", "iter_errors", "validate"]
 EPS_ALL = EPS_CORE + ["module", "is_valid+fc", "module+fc"]
 
 
-def single(d, k, kind, position="root", eps="core"):
+def single(d, k, kind, position="root", eps="core", exclude=()):
     place = cand.POSITIONS[position]
     ep_list = EPS_CORE if eps == "core" else EPS_ALL
 
     def pre(v, x):
+        if "F10" in exclude and kind == "refstr" and v == REFS.index(NON_SCHEMA_REF):
+            return False
         return small(v, 2, 2, 2) and small(x, 2, 2) and vok(d, kind, v)
 
     def body(v, x):
@@ -163,15 +167,37 @@ def pairf(d, k1, kind1, k2, kind2):
     return Spec([("v1", vtype(kind1)), ("v2", vtype(kind2)), ("x", INSTANCE)], pre, body, tags=[])
 
 
+KEY_REGEXES = REGEXES + ["(?i)b", "(?s).", "(?i)^A$", "(?m)^a"]
+
+
+def pattern_keys(d, i, N=1):
+    """two regexes (incl. inline flags) as patternProperties keys next to additionalProperties; the first is fixed (cube)"""
+    def pre(j, ap, x):
+        return 0 <= j < len(KEY_REGEXES) and i != j and small(x, 1, N)
+
+    def body(j, ap, x):
+        schema = {"patternProperties": {pick(KEY_REGEXES, i): {}, pick(KEY_REGEXES, j): {"type": "integer"}}, "additionalProperties": ap}
+        return True, run_entry_points(d, schema, x, EPS_CORE)
+
+    return Spec([("j", int), ("ap", bool), ("x", Dict[str, int])], pre, body, tags=[])
+
+
 def conditions(tier, seed, active):
     out = []
     rng = random.Random(seed)
     quick = tier == "quick"
 
     def c(cid, factory, params, timeout=900):
+        if factory == "single":
+            params = dict(params, exclude=list(active))
         out.append(dict(id=cid, module=__name__, factory=factory, params=params, timeout=timeout, tags=[], witness=[]))
 
     for d in (3, 4, 6, 7):
+        for i in range(len(KEY_REGEXES)):
+            if quick and (i + d) % 2:
+                continue
+            out.append(dict(id="pattern-keys/d%d/first%d" % (d, i), module=__name__, factory="pattern_keys", params=dict(d=d, i=i, N=1 if quick else 2),
+                            timeout=1800, tags=[], witness=[]))
         for k in cand.keywords(d):
             for kind in kinds_for(d, k):
                 if quick and rng.random() < 0.5:
